@@ -615,8 +615,9 @@ class XmlDocument(SubXmlBase):
         without ``nillable``, so ``None`` is written as the empty element it
         stands for, not as ``xsi:nil``."""
 
+        # the members a class inherits are its members, too.
         if inst is None and issubclass(cls, ComplexModelBase) \
-                                                and len(cls._type_info) == 0:
+                                  and len(cls.get_flat_type_info(cls)) == 0:
             return cls()
 
         return inst
